@@ -54,6 +54,64 @@ def wire_explain(xout):
         return {"raw": mm.group(0)[:1500]}
 
 
+def wire_conc_cfg(nmsg, nping, devs, inv, props=()):
+    cfg = "SPECIFICATION Spec\nCONSTANTS\n  NMsg = %d\n  NPing = %d\n  Deviations = %s\n" % (nmsg, nping, tla_set(devs))
+    if inv:
+        cfg += "INVARIANTS " + " ".join(inv) + "\n"
+    if props:
+        cfg += "PROPERTIES " + " ".join(props) + "\n"
+    return cfg + "CHECK_DEADLOCK FALSE\n"
+
+
+def run_wire_conc(work, tier):
+    """leg 1 on spec/WireConc.tla (the two writers of one connection); the deviation that is the
+    implementation without mutual exclusion over a frame must be caught"""
+    n = 2 if tier == "quick" else 3
+    st = model_check(work, "WireConc", wire_conc_cfg(n, n, [], ["FramesIntact", "InOrder"], ["AllWritten"]), timeout=1200, tag="wireconc")
+    rc, out, wall = tlc(work, "WireConc", wire_conc_cfg(2, 2, ["DevUnlockedWrites"], ["FramesIntact"]), [], 600, workers=1, tag="wireconc-dev")
+    if "Invariant FramesIntact is violated" not in out:
+        raise Infra("WireConc.tla: deviation DevUnlockedWrites is not caught by FramesIntact (vacuous?)")
+    return st
+
+
+def gen_schedules(work, nmsg, nping, num, seed):
+    """the interleavings of the two writers' write calls, from TLC simulation of WireConc.tla with
+    mutual exclusion switched off: every order in which the implementation's calls could be granted"""
+    cfg = wire_conc_cfg(nmsg, nping, ["DevUnlockedWrites"], []) + "INVARIANT Emitted\n"
+    rc, out, wall = tlc(work, "WireConc", cfg, ["-simulate", "num=%d" % (num * 4), "-depth", "80", "-seed", str(seed)], 600, workers=1,
+                        tag="gensched%d%d" % (nmsg, nping))
+    if "Error:" in out:
+        raise Infra("schedule generation failed:\n" + out[-2000:])
+    scheds = []
+    for m in re.finditer(r'<<"SCHED", <<(.*?)>>>>', out):
+        sc = "".join("s" if w.strip() == '"send"' else "r" for w in m.group(1).split(","))
+        if sc not in scheds:
+            scheds.append(sc)
+        if len(scheds) >= num:
+            break
+    if not scheds:
+        raise Infra("no schedule generated:\n" + out[-1500:])
+    return scheds
+
+
+def race_scenarios(work, prop, tier, seed):
+    rnd = random.Random(seed)
+    out = []
+    shapes = [(1, 1), (2, 1), (2, 2)] if tier == "quick" else [(1, 1), (2, 1), (1, 2), (2, 2), (3, 2), (3, 3)]
+    per = 12 if tier == "quick" else 60
+    for (nm, npg) in shapes:
+        for sched in gen_schedules(work, nm, npg, per, seed * 31 + nm * 7 + npg):
+            sern = rnd.choice([1, 2, 3])
+            steps = [{"op": "hs", "magic": True, "lenn": 15, "sern": sern, "rsv": True},
+                     {"op": "race", "msgs": nm, "pings": npg, "n": rnd.choice([60, 200, 1500]), "len": rnd.choice([1, 5, 40]), "id": 10, "sched": sched},
+                     {"op": "send", "n": 60, "id": 50},
+                     {"op": "frame", "type": 0, "len": 40, "body": "msg", "id": 51},
+                     {"op": "frame", "type": 1, "len": 3, "body": "msg", "id": 52}]
+            out.append({"id": "%s.race%d.%04d" % (prop, seed, len(out) + 1), "limit": 0, "real": True, "steps": steps})
+    log("generated %d write-interleaving scenarios from WireConc.tla" % len(out))
+    return out
+
+
 INTERCHANGE = [("pubsub", "", 16), ("rpc", "", 18), ("meta", "", 16), ("hist", "hist", 16), ("cancel", "", 16), ("tst", "", 14), ("disc", "disc", 14)]
 
 
@@ -91,11 +149,16 @@ def run_wire(prop, spec, tier, seed, work, replay):
         # leg 1
         cfg = "SPECIFICATION MCSpec\nCONSTANT MaxSteps = %d\nINVARIANTS C15_Inbound C15_Outbound C15_Limits C15_Ended\nCHECK_DEADLOCK FALSE\n" % (5 if tier == "quick" else 6)
         st = model_check(work, "MCWire", cfg, timeout=3000, tag="mcwire")
+        st2 = run_wire_conc(work, tier)
+        for k in st:
+            st[k] = st[k] + st2[k]
         # leg 2a: octet level scenarios
         n = 400 if tier == "quick" else 5000
         wscn = gen_scenarios(work, "GenWire", {"Depth": 9, "Big": "FALSE"}, n, 9, seed * 7919, "genwire", "%s.wire%d." % (prop, seed))
         if tier == "thorough":
             wscn += gen_scenarios(work, "GenWire", {"Depth": 7, "Big": "TRUE"}, 40, 7, seed * 7919 + 5, "genwirebig", "%s.wirebig%d." % (prop, seed))
+        # leg 2a': schedules of the two writers of a connection (WireConc.tla), granted one write call at a time
+        wscn += race_scenarios(work, prop, tier, seed)
         # leg 2b: the routing scenarios of the core family over every transport and serializer
         per = 45 if tier == "quick" else 700
         for gi, (bag, mode, depth) in enumerate(INTERCHANGE):
@@ -110,21 +173,6 @@ def run_wire(prop, spec, tier, seed, work, replay):
     if wscn:
         v, cov_w = exec_wire(work, binary, wscn)
         violations += v
-    if False:
-        tf, crashes = run_exec(work, binary, wscn, "wire", test="TestWireExec")
-        for c in crashes:
-            line = next((l for l in c["stderr"].splitlines() if l.startswith("panic:") or l.startswith("fatal error:")), "?")
-            violations.append({"kind": "wire-crash", "scn": c["scn"], "scenario": byid[c["scn"]], "stderr": c["stderr"], "sig": {"op": "crash"},
-                               "summary": "the process hosting the rawsocket peer died in wire scenario %s: %s" % (c["scn"], line)})
-        evs = read_trace(tf)
-        ok, nev, fails = validate_all(work, "TraceWire", "TraceSpec", {}, tf, "valwire", story=wire_story, explain=wire_explain)
-        for f in fails:
-            ev = f.get("event") or {}
-            violations.append({"kind": "wire-rejected", "scn": f["scn"], "scenario": byid[f["scn"]], "step": f["step"], "explain": f["explain"],
-                               "story": f["story"].split("\n"), "sig": {"op": (ev.get("in") or {}).get("op")},
-                               "summary": "wire scenario %s: the recorded octet-level execution is not a behaviour of Wire.tla at step %d (%s)" % (
-                                   f["scn"], f["step"], json.dumps({k: v for k, v in (ev.get("in") or {}).items() if v not in (0, "", False)}))})
-        cov_w = (ok, sum(1 for e in evs if e["ev"] == "step"), evs)
     if cscn:
         tf, crashes = run_exec(work, binary, cscn, "ex")
         for c in crashes:
@@ -191,13 +239,18 @@ def run_wire(prop, spec, tier, seed, work, replay):
            "samples": samples, "evaluations": cov_w[1] + cov_c[1], "distinct_nontrivial": len(shapes) + families.distinct_shapes(cov_c[2]),
            "rule": "(a) TLC simulation of GenWire.tla generates octet-level rawsocket scenarios (handshake octets, frames of every type around the negotiated "
                    "limits, truncated frames, PING/PONG, router-side sends around the client's limit) executed against transport.AcceptRawSocket over an "
-                   "in-memory pipe and validated by TLC against TraceWire.tla; (b) routing scenarios generated from Gen.tla are executed with every network "
+                   "in-memory pipe and - with nexus as the connecting side, the harness answering the handshake octet by octet - against "
+                   "transport.ConnectRawSocketPeer over loopback TCP, validated by TLC against TraceWire.tla; (a') the interleavings of the write calls of the "
+                   "peer's two goroutines enumerated by TLC from WireConc.tla are imposed on the real peer through a gated connection; (b) routing scenarios generated from Gen.tla are executed with every network "
                    "session attached over rawsocket or websocket with JSON, MessagePack or CBOR and validated against the same Trace.tla as in-process runs. "
                    "distinct = distinct (wire step shape, outcome) plus distinct (input kind, received message kinds) of the routing runs",
-           "wire_scenarios": len(wscn), "routing_scenarios_over_transports": len(cscn), "sessions_by_transport": tr_used,
-           "binding_selftest": selftest, "leg1": {"module": "MCWire.tla", "invariants": ["C15_Inbound", "C15_Outbound", "C15_Limits", "C15_Ended"], "wall_s": st["wall_s"]},
+           "wire_scenarios": len(wscn), "connecting_side_scenarios": sum(1 for s in wscn if s.get("role") == "client"),
+           "write_interleaving_scenarios": sum(1 for s in wscn if ".race" in s["id"]), "routing_scenarios_over_transports": len(cscn), "sessions_by_transport": tr_used,
+           "binding_selftest": selftest, "leg1": {"module": "MCWire.tla + WireConc.tla", "invariants": ["C15_Inbound", "C15_Outbound", "C15_Limits", "C15_Ended", "FramesIntact", "InOrder", "AllWritten (liveness)"], "wall_s": st["wall_s"]},
            "checker_cmd": "tlc MCWire.tla (leg 1); tlc -simulate GenWire.tla / Gen.tla (leg 2); tlc TraceWire.tla / Trace.tla (leg 3)", "exhaustive": False}
     return {"violations": violations, "coverage": cov,
             "assumptions": ["the in-memory websocket connection of harness/wire.go stands for gorilla's framing (not modelled)",
                             "the harness end of a rawsocket connection frames and decodes with the repository's own serializers (checked separately by C14)",
-                            "client side rawsocket handshake (ConnectRawSocketPeer needs a real socket) is not exercised", "TLC, testing/synctest"]}
+                            "scenarios in which nexus is the connecting side (ConnectRawSocketPeer) and the write-interleaving scenarios run in real time over a loopback TCP "
+                            "connection / a gated pipe; the end of a step is detected by marker messages in both directions (FIFO), never by a timeout on correct code",
+                            "TLC, testing/synctest"]}
